@@ -466,6 +466,12 @@ func cmdCheck(args []string) int {
 	// vacuity: every baseline obligation must still be generated
 	var missing []string
 	for n := range base {
+		if cutFamily.MatchString(n) {
+			// an invariant / guarantee conjunct at a release point inside the function: these are
+			// claimed at every release point that EXISTS; when a release point (a loop that waits, an
+			// unlock) is gone there is nothing left to prove there
+			continue
+		}
 		if !seen[n] {
 			missing = append(missing, n)
 		}
@@ -691,6 +697,8 @@ func clauseKey(name string) string {
 	}
 	return ""
 }
+
+var cutFamily = regexp.MustCompile(`(\.back|\.head|[.#]s)\.[A-Z][A-Za-z0-9]*$`)
 
 var cutOrdinal = regexp.MustCompile(`([.#])s[0-9]+\.`)
 
